@@ -461,7 +461,17 @@ fn gen_train_consist(r: &mut Rng) -> Consist {
         }
     }).collect();
     let pdct = if r.chance(0.5) { PowerDistributionControlType::Proportional(Proportional) } else { PowerDistributionControlType::RESGreedy(RESGreedy) };
-    Consist::new(locos, None, pdct)
+    let con = Consist::new(locos, None, pdct);
+    // now and then the consist comes from a hand-written document: no consist-level `state` block (the load hook has
+    // to establish everything a freshly constructed consist has)
+    if r.chance(0.2) {
+        use altrios_core::traits::SerdeAPI;
+        if let Ok(mut v) = serde_json::to_value(&con) {
+            if let Some(o) = v.as_object_mut() { o.remove("state"); }
+            if let Some(Ok(c2)) = guard(|| Consist::from_json(&v.to_string())) { return c2; }
+        }
+    }
+    con
 }
 
 /// C07 clauses on a state right after update_res (front at st.offset)
@@ -535,14 +545,15 @@ fn set_speed_case(ctx: &mut Ctx, r: &mut Rng, steps: usize) {
     // speed trace: irregular stamps, stop-and-go, saturating both clips now and then
     let vmax = bu.tp.speed_max.value;
     // rolling start now and then: the trace's first sample differs from the (default, standing) initial train state
-    let v0: f64 = if r.chance(0.3) { ctx.count("train.ss.rolling_start"); (vmax * 0.5 * r.unit() * 8.0).round() / 8.0 } else { 0.0 };
+    let v0: f64 = if r.chance(0.4) { ctx.count("train.ss.rolling_start"); (vmax * 0.5 * r.unit() * 8.0).round() / 8.0 } else { 0.0 };
     let mut time = vec![t_first];
     let mut speed = vec![v0];
     let mut v: f64 = v0;
     let mut dist = 0.0;
     for _ in 0..steps {
         let dt = *r.pick(&[0.5, 1.0, 1.0, 1.0, 2.0, 2.5]);
-        let a = match r.below(8) { 0 => -0.6, 1 => -0.2, 2 | 3 => 0.0, 4 => 0.05, 5 => 0.15, 6 => 0.4, _ => 1.5 };
+        // (a rolling start brakes in its very first step half of the time)
+        let a = if v0 > 0.0 && time.len() == 1 && r.chance(0.5) { *r.pick(&[-0.6, -0.2, -0.05]) } else { match r.below(8) { 0 => -0.6, 1 => -0.2, 2 | 3 => 0.0, 4 => 0.05, 5 => 0.15, 6 => 0.4, _ => 1.5 } };
         let nv = (v + a * dt).max(0.0).min(vmax);
         let d = 0.5 * (v + nv) * dt;
         if off0 + dist + d > total - 50.0 { break; }
@@ -602,7 +613,14 @@ fn set_speed_case(ctx: &mut Ctx, r: &mut Rng, steps: usize) {
                 let res_net = st_res.res_rolling.value + st_res.res_bearing.value + st_res.res_davis_b.value + st_res.res_aero.value + st_res.res_grade.value + st_res.res_curve.value;
                 let raw = mc * (vc - vp) / dt * 0.5 * (vp + vc) + res_net * 0.5 * (vp + vc);
                 let pos = man.loco_con.state.pwr_out_max.value.min((p.pwr_whl_out.value + man.loco_con.state.pwr_rate_out_max.value * p.dt.value).max(0.0));
-                let neg = man.loco_con.state.pwr_dyn_brake_max.value.max(0.0);
+                // the consist's dynamic-braking capability = the sum of its units' drivetrain ratings, computed here from the
+                // units themselves — not read from the consist's own record of it (a stale record must not excuse a wrong clip)
+                let neg: f64 = man.loco_con.loco_vec.iter().map(|l| match &l.loco_type {
+                    PowertrainType::ConventionalLoco(c) => c.edrv.pwr_out_max.value,
+                    PowertrainType::HybridLoco(h) => h.edrv.pwr_out_max.value,
+                    PowertrainType::BatteryElectricLoco(b) => b.edrv.pwr_out_max.value,
+                    PowertrainType::DummyLoco(_) => 1e15,
+                }).sum::<f64>().max(0.0);
                 let want = raw.max(-neg).min(pos);
                 chk(ctx, "C14", "wheel_power_is_inertia_plus_resistance", close(s.pwr_whl_out.value, want, mc), format!("pwr_whl_out {} != clip(inertia+resistance = {}, -{}, {})", s.pwr_whl_out.value, raw, neg, pos));
                 if raw > -neg && raw < pos { ctx.count("train.ss.unclipped"); } else { ctx.count("train.ss.clipped"); }
@@ -1329,7 +1347,7 @@ fn builder_case(ctx: &mut Ctx, r: &mut Rng) {
 }
 
 pub fn run(ctx: &mut Ctx, r: &mut Rng, tier: &str) {
-    let (np, nbad, nss, nsl, nidx, steps, slsteps) = if tier == "thorough" { (400, 200, 60, 60, 4000, 400, 3000) } else { (40, 20, 6, 12, 400, 150, 1500) };
+    let (np, nbad, nss, nsl, nidx, steps, slsteps) = if tier == "thorough" { (400, 200, 60, 60, 4000, 400, 3000) } else { (40, 20, 18, 12, 400, 90, 1500) };
     for i in 0..np { let mut rr = r.fork(); let _ = path_case(ctx, &mut rr, i % 2 == 0, false); }
     for _ in 0..nbad { let mut rr = r.fork(); bad_route_case(ctx, &mut rr); }
     for _ in 0..nidx { let mut rr = r.fork(); calc_idx_case(ctx, &mut rr); }
